@@ -50,5 +50,5 @@ Inv == MachineOk(m) /\ CollectorsOk(m)
 FinalDb == LET al == SelectSeq(m.db, LAMBDA c : ~c.dead) IN [j \in 1..Len(al) |-> C2(":-", al[j].h, al[j].b)]
 Emit == m.phase = "done" /\ m.status \in {"done", "exc"} =>
           PrintT(ToJson([sc |-> sc, ve |-> m.ve, prog |-> m.prog, q |-> m.q, qv |-> m.qv, ans |-> m.ans, status |-> m.status,
-                         ball |-> m.ball, out |-> m.out, db |-> FinalDb, dynkeys |-> << <<"p", 1>> >>]))
+                         ball |-> m.ball, balts |-> m.balts, out |-> m.out, db |-> FinalDb, dynkeys |-> << <<"p", 1>> >>]))
 =============================================================================
